@@ -16,9 +16,10 @@ def automaton(features=()):
                 _cached[key] = pickle.load(fh)
         else:
             a = extract(features=features)
-            with open(p + ".tmp", "wb") as fh:
+            tmp = "%s.%d.tmp" % (p, os.getpid())  # several checks may build the cache at the same time
+            with open(tmp, "wb") as fh:
                 pickle.dump(a, fh)
-            os.replace(p + ".tmp", p)
+            os.replace(tmp, p)
             _cached[key] = a
     return _cached[key]
 
